@@ -223,7 +223,9 @@ def run(c, a):
         c.violation(sig, "%s in schedule %s" % (what, r[0].get("id")),
                     {"kind": "muxpool-trace", "clause": clause, "cause": cause, "schedule": by_id.get(r[0].get("id")), "trace": r})
     unreal = sum(1 for r in runs if any(e["ev"] == "Unrealised" for e in r))
-    if unreal > 0.2 * max(1, len(runs)):
+    # a schedule that cannot be realised because the code confirmed a violation on the way (e.g. a lost permit starves the
+    # provider) is a verdict; unrealised schedules WITHOUT any confirmed violation mean the generator and the code disagree
+    if unreal > 0.2 * max(1, len(runs)) and not c.violations:
         raise Broken("%d of %d schedules could not be realised" % (unreal, len(runs)))
     if len(runs) != len(scheds):
         raise Broken("%d schedules in, %d runs out" % (len(scheds), len(runs)))
